@@ -8,6 +8,12 @@ ENGINES = [
 ]
 NOT_APPLICABLE = {}
 CLAIMED = {
+ "C04": {
+  "engine": "tlc + csl-conform (spec/lib/Encodings.tla, CBOR.tla; spec/mc/MC_FixedTx.tla; spec/trace/Trace_FixedTx.tla; hashlib digest oracle)",
+  "technique": "TLC generates, from a tree description of transactions, every single non-canonical encoding choice (and checks on the model that each is well-formed and carries the same data) crossed with add-signature histories; the real FixedTransaction is loaded and signed; the trace spec keeps the original bytes, the touched keys and the added witnesses as state and compares, after every step, the spans of body / auxiliary data / every untouched witness field in the re-serialization with the spans in the input, the touched key-witness fields with original-then-added elements, and the reported hash with Blake2b-256 of the original body span (hashlib); Plutus datums in random non-canonical encodings must re-encode and hash to their input bytes",
+  "text": "About 1000 (quick) / 2300 generated transaction scenarios (8 witness-set presence variants x histories; 2 transactions x ~230 single deviations x 4 histories) and 3000 / 30000 random datums.",
+  "note": "Trusted: TLC, CBOR.tla, Encodings.tla (model-checked: WellFormed, SameData), hashlib.blake2b, harness logging (--selftest flips a body byte). Block views (FixedTransactionBody / FixedBlock) not exercised yet; only single deviations (pairs planned for thorough).",
+ },
  "C16": {
   "engine": "tlc + csl-conform (spec/sys/DedupSets.tla, spec/mc/MC_DedupSets.tla, spec/trace/Trace_DedupSets.tla, Trace_TxBuilder.tla; harness sets + builder drivers)",
   "technique": "L1 TLA+ model of a vector + membership index with three arrival paths, model-checked against L0 (first-occurrence subsequence, no duplicates, index consistent) over all histories; each history is executed on 7 real set types and 3 witness-set setters through new / tagged CBOR / untagged CBOR / JSON constructors and add(); TLC parses the serialized bytes and compares element spans, order, tag 258, len/get/add results with the first-occurrence subsequence; all orders of asset insertion are checked for canonical key order in Value, Mint and the builder's mint field; Build;Build and duplicate-free witness sets are checked on the builder traces",
